@@ -31,6 +31,7 @@ type World struct {
 	Frames    []*FrameDecl
 	TypeInvs  map[string]*TypeInv // qualified type name -> invariant
 	Ghosts    map[string]*GhostField // pkgpath.Type.$name
+	Axioms    []*AxiomDecl
 	SpecFiles []*SpecFile
 	Overlay   map[string][]byte
 	fileCache map[string][]byte
@@ -174,6 +175,7 @@ func (w *World) loadSpecs(depsDir string) error {
 			w.Preds[p.Pkg+"::"+p.Name] = p
 		}
 		w.Frames = append(w.Frames, sf.Frames...)
+		w.Axioms = append(w.Axioms, sf.Axioms...)
 		for _, g := range sf.Ghosts {
 			w.Ghosts[g.Pkg+"."+g.Type+"."+g.Name] = g
 		}
